@@ -1017,3 +1017,15 @@ func (o *PtrRecvP1Claims) MarshalJSON() ([]byte, error) { return encoding.Serial
 func (o *PtrRecvP1Claims) UnmarshalJSON(data []byte) error {
 	return encoding.PopulateStructFromJSON(data, o)
 }
+
+// ---- a profile-independent add-on that embeds the base claims through the
+// INTERFACE (so one outer Go type sits on top of claims-sets of either
+// profile in the same process) and adds one optional claim of its own ----
+
+type IfaceWrapClaims struct {
+	psatoken.IClaims
+	Stamp *int64 `cbor:"-75700,keyasint,omitempty" json:"stamp,omitempty"`
+}
+
+func (o IfaceWrapClaims) MarshalCBOR() ([]byte, error) { return encoding.SerializeStructToCBOR(hem, &o) }
+func (o IfaceWrapClaims) MarshalJSON() ([]byte, error) { return encoding.SerializeStructToJSON(&o) }
